@@ -32,6 +32,7 @@ def _strategy(shapes):
         diag = draw(st.sampled_from([False, False, True]))
         return {"D": D, "R": R, "N": N, "dim_b": dim_b, "dim_a": dim_a, "variant": variant, "diag": diag,
                 "p": draw(gen.measure_params("diag_pdf" if diag else "pdf", R, D, draw(st.sampled_from([10.0, 100.0])), extreme=True)),
+                "upd": draw(gen.maybe_update("diag_pdf" if diag else "pdf", R, D)),
                 "x": draw(gen.arr((N, D), -3, 3))}
     return s()
 
@@ -44,9 +45,8 @@ def _run(case):
     fails = []
     D, R, N = case["D"], case["R"], case["N"]
     a, bb = list(case["dim_a"]), list(case["dim_b"])
-    mu, Sig = np.asarray(case["p"]["mu"], float), np.asarray(case["p"]["Sigma"], float)
-    ok, p = lib(fails, "construct_pdf", libx.make_measure, "diag_pdf" if case["diag"] else "pdf", case["p"])
-    if not ok:
+    p, mu, Sig = libx.density_with_past(fails, "diag_pdf" if case["diag"] else "pdf", case["p"], case.get("upd"))
+    if p is None:
         return fails
     tag = case["variant"]
     if tag == "condition_on":
